@@ -436,6 +436,7 @@ def run(tier: str) -> int:
         ck.add(l, im, nontrivial=nt, tag=l.split(" ", 1)[0] + (":err" if im.startswith("err") else ""))
     ck.add_src(['Tag_tagify', 'TagList_tagify'])
     __import__('srctie_c18').add_src_c18(ck, ['TagList_render', 'Tag_render'])   # render(): needs the op srcc18
+    ck.extra_cov["protocol_per_instance_scenarios"] = __import__("flexhist").oracle(ck)
     ck.correspond(holds=True)
     doc_oracle(ck, doc_cases)
     return ck.finish(shrink=make_shrinker(ck))
